@@ -161,6 +161,9 @@ def cases(kind, tier, seed):
                     for trunc in (['none'] if method == 'naive' else truncs):
                         opts = dict(max_trunc_err=None) if method.startswith('variational') else {}
                         yield dict(op=op, state=state, method=method, trunc=trunc, options=opts, seed=seed)
+                    if method == 'zip_up':  # the sweep itself truncates to chi_max
+                        for trunc in ('chi2', 'chi3'):
+                            yield dict(op=op, state=state, method=method, trunc=trunc, options=dict(m_temp=1), seed=seed)
     elif kind == 'inf':
         for ci, chain in enumerate(chains(tier)):
             for L, reach in inf_cells(chain, tier, 'inf'):
@@ -223,7 +226,7 @@ def describe(kind, case):
     if kind == 'partition':
         return dict(kind=kind, chain=case['spec']['chain'], L=case['spec']['L'], bc=case['spec']['bc'], term=case['spec']['terms'][case['k']])
     if kind == 'apply':
-        return dict(kind=kind, op=case['op']['kind'], state=case['state'], method=case['method'], trunc=case['trunc'])
+        return dict(kind=kind, op=case['op']['kind'], state=case['state'], method=case['method'], trunc=case['trunc'], options=case['options'])
     if kind == 'infapply':
         return dict(kind=kind, chain=case['spec']['chain'], L=case['spec']['L'], enlarge=case['enlarge'], t=case['t'], approx=case['approx'], method=case['method'])
     return dict(case, kind=kind)
